@@ -123,6 +123,10 @@ def fixed_corpus():
     add(T("tuple", ts=[T("string"), I("u8"), T("vec", t=I("u8"))]))
     add(T("vec", t=T("vec", t=I("u16"))), tags=("vec",))
     add(T("vec", t=T("option", t=I("u8"))), tags=("vec",))
+    # ArrayVec: a top-level container outside the Coq universe (modelled by PackedDec.arrayvec_dec); only C06 uses these roots
+    for (et, cap) in ((I("u32"), 4), (T("unit"), 4), (T("string"), 3), (I("u8"), 0), (I("u16"), 8)):
+        roots.append({"ty": T("arrayvec", t=et, cap=cap), "vals": None, "tags": {"fixed", "arrayvec"}})
+    roots.append({"ty": T("arrayvec", t=outer, cap=2), "vals": None, "tags": {"fixed", "arrayvec"}})
     return items, roots
 
 
